@@ -168,8 +168,10 @@ Fixpoint deser_loop (fuel : nat) (tags : bytes) (st : de_st) : outcome de_st :=
                  | Some (so, st1) =>
                    match take_val st1 with
                    | Some (sl, st2) =>
-                     (* tagDst | sOffset : bitwise or with an arbitrary 64-bit offset *)
-                     deser_loop f tr (set_tape_off st2 (tape_set (tape_set (d_tape st2) off (N.lor tagDst so)) (off + 1) sl) (off + 2))
+                     (* an offset that does not fit below the tag byte is rejected (fix F18);
+                        then tagDst | sOffset *)
+                     if JSONVALUEMASK <? so then Err
+                     else deser_loop f tr (set_tape_off st2 (tape_set (tape_set (d_tape st2) off (N.lor tagDst so)) (off + 1) sl) (off + 2))
                    | None => Err
                    end
                  | None => Err
